@@ -3,6 +3,7 @@ import json
 import os
 import sys
 
+from common import scratch_root as common_scratch_root
 from common import (VERIF, REPO, EXIT_OK, EXIT_VIOLATION, EXIT_UNDECIDED, Scratch, Timer, log, load_known_findings,
                     write_evidence, write_replay, repo_fingerprint, NCPU)
 import kani_engine
@@ -156,6 +157,11 @@ def main(a):
         by_cfg = {}
         for h in harnesses:
             by_cfg.setdefault((h.cfg, h.kani_args), []).append(h)
+        # CBMC processes need 3-14 GB each: concurrent bin/check invocations serialise their Kani phase on a file lock so
+        # that the machine is never over-committed (an OOM-killed cbmc would turn the whole group undecided)
+        import fcntl
+        lockf = open(os.path.join(common_scratch_root(), "hbsverif-kani.lock"), "w")
+        fcntl.flock(lockf, fcntl.LOCK_EX)
         with Scratch("kani-" + pid) as sc:
             try:
                 inject_summary = kani_engine.prepare(sc)
